@@ -1255,6 +1255,102 @@ def gen_late_def_function(rnd):
     return '\n'.join(L) + '\n'
 
 
+def gen_composite_del_function(rnd):
+    """`del d[k]` / `del d['a']` / `del o.attr` on a local owner; every path to the later reads of the owner and to
+    the compound statements that follow goes through the del"""
+    k = [0]
+
+    def key():
+        k[0] += 1
+        return k[0]
+    d, o, x = rnd.sample(_progs.VARS, 3)
+    L = ['def f(a, b, c):']
+    L.append("    %s = {a: T(%d), 'k': T(%d), 7: T(%d)}" % (d, key(), key(), key()))
+    use_obj = rnd.random() < 0.4
+    if use_obj:
+        L.append('    %s = CM(%d)' % (o, key()))
+    if rnd.random() < 0.4:
+        L += ['    if D(%d):' % key(), "        %s = {a: T(%d), 'k': T(%d), 7: T(%d)}" % (d, key(), key(), key())]
+    ind = '    '
+    if rnd.random() < 0.3:
+        L.append('    for i%d in L(%d):' % (key(), key()))
+        L.append("        %s = {a: T(%d), 'k': T(%d), 7: T(%d)}" % (d, key(), key(), key()))
+        ind = '        '
+    form = rnd.random()
+    if use_obj and form < 0.5:
+        L.append(ind + 'del %s.k' % o)
+        owner = o
+    elif form < 0.7:
+        L.append(ind + 'del %s[a]' % d)
+        owner = d
+    elif form < 0.9:
+        L.append(ind + "del %s['k']" % d)
+        owner = d
+    else:
+        L.append(ind + 'del %s[7], %s[a]' % (d, d))
+        owner = d
+    if rnd.random() < 0.6:
+        L.append(ind + '%s = T(%d, %s)' % (x, key(), owner))
+    tail = rnd.random()
+    if tail < 0.35:
+        L += ['    if D(%d):' % key(), '        %s = T(%d)' % (owner, key())]
+    elif tail < 0.6:
+        L += ['    while D(%d):' % key(), '        %s = T(%d, %s)' % (x, key(), owner)]
+    elif tail < 0.8:
+        L += ['    try:', '        %s = T(%d, %s)' % (x, key(), owner), '    except E0:', '        %s = T(%d)' % (owner, key())]
+    L.append('    return T(%d, %s)' % (key(), owner))
+    return '\n'.join(L) + '\n'
+
+
+def gen_jump_through_finally_function(rnd):
+    """continue / break inside try ... finally inside the loop being continued / left (also two finally clauses deep):
+    the finally clause assigns a variable that the fall-through path overwrites and that is read at the loop head
+    or after the loop on the jump path"""
+    k = [0]
+
+    def key():
+        k[0] += 1
+        return k[0]
+    v, u, w = rnd.sample(_progs.VARS, 3)
+    L = ['def f(a, b, c):', '    %s = T(%d)' % (v, key()), '    %s = T(%d)' % (u, key())]
+    head_reads = rnd.random() < 0.5
+    if rnd.random() < 0.6:
+        L.append('    while D(%d%s):' % (key(), ', ' + v if head_reads else ''))
+    else:
+        L.append('    for i%d in L(%d):' % (key(), key()))
+    if rnd.random() < 0.4:
+        L.append('        %s = T(%d, %s)' % (u, key(), v))
+    nested = rnd.random() < 0.35
+    p = '        '
+    L.append(p + 'try:')
+    if nested:
+        L.append(p + '    try:')
+        p2 = p + '        '
+    else:
+        p2 = p + '    '
+    jump = rnd.choice(['continue', 'continue', 'break'])
+    if rnd.random() < 0.75:
+        L.append(p2 + 'if D(%d):' % key())
+        if rnd.random() < 0.4:
+            L.append(p2 + '    %s = T(%d)' % (u, key()))
+        L.append(p2 + '    ' + jump)
+        L.append(p2 + '%s = T(%d)' % (w, key()))
+    else:
+        L.append(p2 + '%s = T(%d)' % (w, key()))
+        L.append(p2 + jump)
+    if nested:
+        L.append(p + '    finally:')
+        L.append(p + '        %s = T(%d)' % (u, key()))
+    L.append(p + 'finally:')
+    L.append(p + '    %s = T(%d%s)' % (v, key(), ', ' + u if rnd.random() < 0.5 else ''))
+    if rnd.random() < 0.8:
+        L.append(p + '%s = T(%d)' % (v, key()))          # fall-through overwrites the finally assignment
+    if rnd.random() < 0.4:
+        L += ['    if D(%d):' % key(), '        %s = T(%d, %s)' % (u, key(), v)]
+    L.append('    return T(%d, %s, %s)' % (key(), v, u))
+    return '\n'.join(L) + '\n'
+
+
 def gen_paramless_function(rnd):
     """a function without parameters in which nothing is bound before a loop, and the first binding is the last
     CFG node of the loop body (the in-state of that node is empty when it is first visited)"""
@@ -1594,7 +1690,11 @@ def program_stream(rnd, it):
         return 'lambda', gen_escape_function(rnd, _progs.Opts(reads='safe', max_stmts=16, max_depth=2, raise_=False, try_=False, with_=False),
                                              lambdas=True)
     if k == 18:
-        sel = (it // 20) % 6
+        sel = (it // 20) % 8
+        if sel == 7:
+            return 'composite-del', gen_composite_del_function(rnd)
+        if sel == 6:
+            return 'jump-through-finally', gen_jump_through_finally_function(rnd)
         if sel == 5:
             return 'late-def', gen_late_def_function(rnd)
         if sel == 4:
